@@ -353,6 +353,21 @@ fn gen_case(p: &mut Prng, arch: Arch, kind: u64) -> Case {
             probes.push((addr, is_ra, regs, mem, iter));
         }
     }
+    // a run of calls whose lookup addresses all map to one cache slot (one cache, one module
+    // set): whatever the cache does with displaced entries, it must not touch the heap
+    if p.chance(1, 6) {
+        let n_slots = crate::hist::cache_entry_count();
+        let a0 = m.start.wrapping_add(p.below((m.end - m.start).max(1)));
+        for k in 0..(12 + p.below(16)) {
+            let addr = a0.wrapping_add(k * n_slots);
+            if addr == 0 {
+                continue;
+            }
+            let regs = gen_regs(p, arch, addr);
+            let mem = gen_mem(p, &regs);
+            probes.push((addr, false, regs, mem, false));
+        }
+    }
     // both sides of the capacities of gimli's storages (4 rows, 192 rules - the same for both
     // policies - and 64 expression stack values for `StoreOnStack` only)
     let stress = if matches!(m.data, DataSpec::Dwarf(..)) && kind == 1 {
